@@ -142,6 +142,11 @@ func New(proxy string, conn net.Conn, addr netip.AddrPort,
 	return peer
 }
 
+// Close closes the connection of a peer that has not been started.
+func (p *Peer) Close() error {
+	return p.conn.Close()
+}
+
 func (p *Peer) MultipathTCP() bool {
 	c, ok := p.conn.(*net.TCPConn)
 	if !ok {
